@@ -2,6 +2,7 @@
 effectful steps of main() and render_sources() on the path `-c f -o dir --no-format`, plus the
 conditions guarding the two writes.  Fail-closed: an unrecognised statement is an error."""
 import ast
+import copy
 import os
 from harness import common, facts
 
@@ -27,50 +28,129 @@ def cond_str(test):
 
 
 def steps_of_body(body, out, ctx):
+    """raw steps of a function body: (kind, node a, node b, guards) with kind in call / assign / write / return; the
+    guards are (test node, negated) pairs.  Texts are produced at expansion time, after the substitution of a helper's
+    parameters and result name (a helper of cli.py that main() calls is INLINED, so that moving stages into a function
+    -- `network = build_network(args.config)` -- leaves the step list what it was)"""
     for st in body:
         if isinstance(st, ast.Expr) and isinstance(st.value, ast.Constant):
             continue  # docstring
         if isinstance(st, (ast.Assign, ast.Expr)):
             val = st.value
+            if isinstance(st, ast.Assign) and len(st.targets) != 1:
+                raise TranslateError(f"line {st.lineno}: chained assignment")
+            tgt = st.targets[0] if isinstance(st, ast.Assign) else None
             if isinstance(val, ast.Call):
-                name = call_name(val)
-                tgt = ast.unparse(st.targets[0]) if isinstance(st, ast.Assign) else ""
-                if name == "print":
-                    tgt = ",".join(ast.unparse(a) for a in val.args)
-                out.append(("call", name, tgt, tuple(ctx)))
+                out.append(("call", val, tgt, tuple(ctx)))
             elif isinstance(st, ast.Assign):
-                out.append(("assign", ast.unparse(st.value)[:40], ast.unparse(st.targets[0]), tuple(ctx)))
+                out.append(("assign", val, tgt, tuple(ctx)))
             else:
                 raise TranslateError(f"line {st.lineno}: unexpected expression statement")
+        elif isinstance(st, ast.Return):
+            out.append(("return", st.value, None, tuple(ctx)))
         elif isinstance(st, ast.If):
-            c = cond_str(st.test)
-            steps_of_body(st.body, out, ctx + [c])
-            steps_of_body(st.orelse, out, ctx + ["not (" + c + ")"])
+            steps_of_body(st.body, out, ctx + [(st.test, False)])
+            steps_of_body(st.orelse, out, ctx + [(st.test, True)])
         elif isinstance(st, ast.With):
             item = st.items[0].context_expr
             if not (isinstance(item, ast.Call) and call_name(item) == "open"):
                 raise TranslateError(f"line {st.lineno}: unexpected with-statement")
-            fname = ast.unparse(item.args[0])
             for inner in st.body:
                 if isinstance(inner, ast.Expr) and isinstance(inner.value, ast.Call) and call_name(inner.value).endswith(".write"):
-                    out.append(("write", fname, ast.unparse(inner.value.args[0]), tuple(ctx)))
+                    out.append(("write", item.args[0], inner.value.args[0], tuple(ctx)))
                 else:
                     raise TranslateError(f"line {inner.lineno}: unexpected statement inside with open(...)")
         else:
             raise TranslateError(f"line {st.lineno}: unexpected statement {type(st).__name__}")
 
 
+class _Subst(ast.NodeTransformer):
+    def __init__(self, env):
+        self.env = env
+
+    def visit_Name(self, node):
+        return copy.deepcopy(self.env[node.id]) if node.id in self.env else node
+
+
+def subst(node, env):
+    if node is None or not env:
+        return node
+    return _Subst(env).visit(copy.deepcopy(node))
+
+
+NOT_INLINED = ("parse_args",)   # the argument parser: one step, as before
+
+
+def expand(funcs, fname, env, outer_ctx, result_tgt, out, depth=0):
+    """the steps of function fname as (kind, what, target, guards, nested model calls), helpers inlined"""
+    if depth > 6:
+        raise TranslateError(f"helper nesting too deep at {fname}")
+    raw = []
+    steps_of_body(funcs[fname].body, raw, [])
+    for kind, a, b, ctx in raw:
+        guards = tuple(outer_ctx) + tuple(("not (" + cond_str(subst(t, env)) + ")") if neg else cond_str(subst(t, env)) for t, neg in ctx)
+        a2, b2 = subst(a, env), subst(b, env)
+        nested = []
+        for part in (a2, b2):
+            if part is not None:
+                for node in ast.walk(part):
+                    if isinstance(node, ast.Call):
+                        nm = call_name(node)
+                        if nm.startswith("network.") or nm == "parse_config":
+                            args = [ast.unparse(x) for x in node.args] + [f"{k.arg}={ast.unparse(k.value)}" for k in node.keywords]
+                            nested.append((nm, ", ".join(args)))
+        if kind == "return":
+            # the value a helper hands back: a call is a step of its own (bound to the caller's target), a plain
+            # expression is covered by the renaming done by the caller
+            if isinstance(a2, ast.Call):
+                kind, b2 = "call", result_tgt
+            else:
+                continue
+        if kind == "call":
+            name = call_name(a2)
+            if name in funcs and name not in NOT_INLINED and name != fname:
+                f = funcs[name]
+                params = [p.arg for p in f.args.args]
+                if f.args.vararg or f.args.kwarg or f.args.kwonlyargs or len(a2.args) > len(params):
+                    raise TranslateError(f"helper {name}: unsupported signature")
+                env2 = {}
+                defaults = dict(zip(params[len(params) - len(f.args.defaults):], f.args.defaults))
+                for p_, v in zip(params, a2.args):
+                    env2[p_] = v
+                for k in a2.keywords:
+                    if k.arg not in params:
+                        raise TranslateError(f"helper {name}: unknown keyword {k.arg}")
+                    env2[k.arg] = k.value
+                for p_ in params:
+                    if p_ not in env2:
+                        if p_ not in defaults:
+                            raise TranslateError(f"helper {name}: missing argument {p_}")
+                        env2[p_] = defaults[p_]
+                # the name the helper returns becomes the caller's target
+                last = f.body[-1] if f.body else None
+                if b2 is not None and isinstance(last, ast.Return) and isinstance(last.value, ast.Name) and last.value.id not in env2:
+                    env2[last.value.id] = b2
+                expand(funcs, name, env2, guards, b2, out, depth + 1)
+                continue
+            tgt = ast.unparse(b2) if b2 is not None else ""
+            if name == "print":
+                tgt = ",".join(ast.unparse(x) for x in a2.args)
+            out.append(("call", name, tgt, guards, nested))
+        elif kind == "assign":
+            out.append(("assign", ast.unparse(a2)[:40], ast.unparse(b2), guards, nested))
+        elif kind == "write":
+            out.append(("write", ast.unparse(a2), ast.unparse(b2), guards, nested))
+
+
 def extract():
     src = open(os.path.join(common.REPO, "floogen", "cli.py")).read()
     tree = ast.parse(src)
     funcs = {f.name: f for f in tree.body if isinstance(f, ast.FunctionDef)}
-    for need in ("main", "render_sources"):
-        if need not in funcs:
-            raise TranslateError(f"function {need} not found")
-    main, rs = [], []
-    steps_of_body(funcs["main"].body, main, [])
-    steps_of_body(funcs["render_sources"].body, rs, [])
-    return main, rs
+    if "main" not in funcs:
+        raise TranslateError("function main not found")
+    steps = []
+    expand(funcs, "main", {}, (), None, steps)
+    return steps
 
 
 def coq_str(s):
@@ -92,37 +172,23 @@ def path_enabled(ctx, outdir=True, only_pkg=False, only_top=False):
     return True
 
 
-def sequence(main, rs, **mode):
-    seq = []
-    for kind, name, tgt, ctx in main:
-        if not path_enabled(ctx, **mode):
-            continue
-        if kind == "call" and name == "render_sources":
-            for k2, n2, t2, c2 in rs:
-                if path_enabled(c2, **mode):
-                    seq.append((k2, n2, t2))
-        else:
-            seq.append((kind, name, tgt))
-    return seq
+def sequence(steps, **mode):
+    return [(kind, name, tgt) for kind, name, tgt, ctx, _ in steps if path_enabled(ctx, **mode)]
 
 
 def model_calls():
-    """(callee, argument text) of every call on the network object (and of parse_config) anywhere in cli.py: how the
-    model is built and rendered -- it must not depend on the output-mode flags"""
-    src = open(os.path.join(common.REPO, "floogen", "cli.py")).read()
+    """(callee, argument text) of every call on the network object (and of parse_config) on ANY path of the pipeline
+    (whatever the guards; helpers inlined with their parameters substituted): how the model is built and rendered -- it
+    must not depend on the output-mode flags"""
     out = []
-    for node in ast.walk(ast.parse(src)):
-        if isinstance(node, ast.Call):
-            name = call_name(node)
-            if name.startswith("network.") or name == "parse_config":
-                args = [ast.unparse(a) for a in node.args] + [f"{k.arg}={ast.unparse(k.value)}" for k in node.keywords]
-                out.append((name, ", ".join(args)))
+    for kind, name, tgt, ctx, nested in extract():
+        out.extend(nested)
     return sorted(set(out))
 
 
 def generate():
-    main, rs = extract()
-    seq = sequence(main, rs)
+    steps = extract()
+    seq = sequence(steps)
     lines = ["(* generated by harness/facts_cli.py from /repo/floogen/cli.py on every run: do not edit *)",
              "From FV Require Import Base.", "",
              "(* effectful steps of `floogen -c f -o dir --no-format`, in program order: (kind, what, target) *)",
@@ -135,7 +201,7 @@ def generate():
     for od in (True, False):
         for op in (False, True):
             for ot in (False, True):
-                sq = sequence(main, rs, outdir=od, only_pkg=op, only_top=ot)
+                sq = sequence(steps, outdir=od, only_pkg=op, only_top=ot)
                 b = lambda x: "true" if x else "false"
                 modes.append(f"  (({b(od)}, ({b(op)}, {b(ot)})), [" +
                              "; ".join(f"({coq_str(k)}, ({coq_str(n)}, {coq_str(t)}))" for k, n, t in sq) + "])")
